@@ -110,6 +110,15 @@ def opTok (args : String) : String :=
     | some (_, out) => out
   | _ => "BAD-ARGS"
 
+def opNamePred (args : String) : String :=
+  match args.splitOn "|" with
+  | [bcs, runes] =>
+    let bc := ((bcs.splitOn ",").map (fun s => strRunes s.trimAscii.toString)).filter (· != [])
+    let n := parseNats runes
+    let b (x : Bool) := if x then "1" else "0"
+    b (Token.isVariableIdent n) ++ b (Token.isClassIdent bc n) ++ b (Token.isConstIdent bc n) ++ b (Token.isSymbolIdent n)
+  | _ => "BAD-ARGS"
+
 def parseSpec (spec : String) : Config.TypeSpecJ :=
   if spec == "-" then .absent
   else if spec.startsWith "s:" then .single (spec.drop 2).toString.toList
@@ -263,6 +272,7 @@ def dispatch (line : String) : String :=
   else if name == "prio" then opPrio args
   else if name == "sortsig" then opSortSig args
   else if name == "suggest" then opSuggest args
+  else if name == "namepred" then opNamePred args
   else if name == "findns" then opFindNS args
   else if name == "rbsargs" then opRbsArgs args
   else if name == "c2jargs" then opC2j args
